@@ -1,6 +1,7 @@
 package c14
 
 import (
+	"fmt"
 	"os"
 	"sync"
 	"time"
@@ -8,6 +9,9 @@ import (
 	"github.com/btcsuite/btcd/chaincfg/v2"
 	"github.com/btcsuite/btcd/chainhash/v2"
 	"github.com/btcsuite/btcd/wire/v2"
+
+	"verif/internal/chaingen"
+	"verif/internal/ref"
 )
 
 // Exported surface for the C08 crash runner, which crashes the REAL import at
@@ -32,6 +36,28 @@ func NewWorld(seed int64, preset int, scratch string) (*World, error) {
 	w, err := newWorld(seed, preset, scratch)
 	if err != nil {
 		return nil, err
+	}
+	return &World{w: w}, nil
+}
+
+// NewLongWorld is NewWorld with the master chain extended to at least
+// heights heights (the same chain up to the usual length, more valid headers
+// on top; a pure function of seed, preset and heights). For import files of
+// several thousand headers.
+func NewLongWorld(seed int64, preset int, scratch string, heights int) (*World, error) {
+	w, err := newWorld(seed, preset, scratch+"/long")
+	if err != nil {
+		return nil, err
+	}
+	if more := heights - (len(w.master) - 1); more > 0 {
+		w.g.Rng.Seed(seed*1000003 + int64(preset) + 777)
+		for _, n := range w.g.Extend(w.master[len(w.master)-1], more, chaingen.PaceMixed) {
+			w.master = append(w.master, n)
+			w.hdrs = append(w.hdrs, n.Hdr)
+		}
+		if h, rule := ref.CheckChain(w.g.P, w.hdrs, refNow); h != -1 {
+			return nil, fmt.Errorf("long world %s: master chain invalid at %d (%s)", w.name, h, rule)
+		}
 	}
 	return &World{w: w}, nil
 }
